@@ -17,9 +17,16 @@ class CallMixin:
         if isinstance(n.func, ast.Name) and n.func.id == "getattr" and n.func.id not in st.env and len(n.args) in (2, 3):
             yield from self._getattr_call(n, st, fx)
             return
+        star = any(isinstance(x, ast.Starred) for x in n.args) or any(k.arg is None for k in n.keywords)
         for r, f, s in self.ev(n.func, st, fx):
             if r == "raise":
                 yield r, f, s
+                continue
+            if star and isinstance(f, tuple) and f and f[0] in ("bm", "func", "closure", "cls"):
+                # argument lists built at run time cannot be bound to parameters: the call is kept opaque (events of the callee are
+                # not seen; rules that need them will miss the instance and fail their floors rather than guess)
+                self.emit(s, fx, "NOINLINE", n, func=show(f), why="star-args")
+                yield "ok", ("call", f, ()), s
                 continue
             argnodes = list(n.args)
             for r2, args, s2 in self.ev_list(argnodes, s, fx):
